@@ -38,7 +38,13 @@ class Site:
 
 
 class Universe:
-    def __init__(self, packages=("batchie",)):
+    # explicit receiver-type hints for calls the light-weight inference cannot type:
+    #   {(caller qualname, method name): [callee qualnames]}   -- listed in the trusted base of the property that sets them
+    def __init__(self, packages=("batchie",), hints=None):
+        self.hints = hints or {}
+        self._init(packages)
+
+    def _init(self, packages):
         self.modules = {}
         self.functions = {}  # qualname -> (module, node, classqual or None)
         self.classes = {}  # qualname -> (module, node)
@@ -162,6 +168,63 @@ class Universe:
                     types[a.arg] = t
         if cq and node.args.args and node.args.args[0].arg in ("self",):
             types[node.args.args[0].arg] = cq
+        elem_types = {}  # name -> element class for lists of repo objects
+
+        def type_of_expr(e):
+            """(class or None, element class or None) of an expression, by annotations / constructors / .plates"""
+            if isinstance(e, ast.Name):
+                return types.get(e.id), elem_types.get(e.id)
+            if isinstance(e, ast.Attribute) and e.attr == "plates":
+                return None, "batchie.data.Plate"
+            if isinstance(e, ast.Call):
+                d = _dotted(e.func)
+                t = self.resolve_name(m, d) if d else None
+                if t in self.classes:
+                    return t, None
+                ret = None
+                retmod = m
+                if t in self.functions:
+                    ret = self.functions[t][1].returns
+                    retmod = self.functions[t][0]
+                elif isinstance(e.func, ast.Attribute):
+                    rt, _ = type_of_expr(e.func.value)
+                    if rt:
+                        f = self.find_method(rt, e.func.attr)
+                        if f:
+                            ret = self.functions[f][1].returns
+                            retmod = self.functions[f][0]
+                    if e.func.attr == "tolist" or (isinstance(e.func.value, ast.Subscript)):
+                        return None, type_of_expr(e.func.value)[1]
+                if isinstance(e.func, ast.Name) and e.func.id in ("sorted", "list", "reversed") and e.args:
+                    return None, type_of_expr(e.args[0])[1]
+                if d in ("np.array_split", "numpy.array_split") and e.args:
+                    return None, type_of_expr(e.args[0])[1]
+                if ret is not None:
+                    rt = self.resolve_name(retmod, _dotted(_strip_optional(ret)))
+                    if rt in self.classes:
+                        return rt, None
+            if isinstance(e, ast.Subscript):
+                return None, type_of_expr(e.value)[1]
+            if isinstance(e, ast.ListComp) and len(e.generators) == 1:
+                g = e.generators[0]
+                _, et = type_of_expr(g.iter)
+                if isinstance(e.elt, ast.Name) and isinstance(g.target, ast.Name) and e.elt.id == g.target.id:
+                    return None, et
+                return None, type_of_expr(e.elt)[0]
+            return None, None
+
+        for _round in range(2):
+            for st in ast.walk(node):
+                if isinstance(st, ast.Assign) and len(st.targets) == 1 and isinstance(st.targets[0], ast.Name):
+                    t, et = type_of_expr(st.value)
+                    if t:
+                        types[st.targets[0].id] = t
+                    if et:
+                        elem_types[st.targets[0].id] = et
+                if isinstance(st, (ast.For, ast.comprehension)) and isinstance(st.target, ast.Name):
+                    _, et = type_of_expr(st.iter)
+                    if et:
+                        types[st.target.id] = et
         for st in ast.walk(node):
             if isinstance(st, ast.Assign) and len(st.targets) == 1 and isinstance(st.targets[0], ast.Name) and isinstance(st.value, ast.Call):
                 t = self.resolve_name(m, _dotted(st.value.func))
@@ -252,6 +315,10 @@ class Universe:
                     rd = _dotted(recv) or ""
                     if meth in GEN_METHODS and ("rng" in rd.lower() or "seed" in rd.lower()):
                         continue  # draws from the generator that was handed in
+                    if (qualname, meth) in self.hints:
+                        for f in self.hints[(qualname, meth)]:
+                            calls.append((f, passed, n.lineno))
+                        continue
                     if rname and rname in types:
                         for f in self.dispatch(types[rname], meth):
                             calls.append((f, passed, n.lineno))
@@ -260,6 +327,12 @@ class Universe:
                         continue  # library module call (np.*, h5py.*, ...)
                     if rd.startswith("self.") and cq:
                         pass
+                    if cq and self.find_method(cq, meth) and not rd.startswith("self"):
+                        # same-class heuristic: inside a method of C an untyped receiver calling a method that C has
+                        # (e.g. `first.combine(x)` in C.concat) is taken to be a C
+                        for f in self.dispatch(cq, meth):
+                            calls.append((f, passed, n.lineno))
+                        continue
                     cands = self.methods_by_name.get(meth, [])
                     if cands and meth not in PURE_ATTR_CALLS:
                         for c in cands:
@@ -275,6 +348,8 @@ class Universe:
                     if any((isinstance(d, ast.Name) and d.id == "property") for d in fnode.decorator_list):
                         rname = n.value.id if isinstance(n.value, ast.Name) else None
                         if rname and rname in types and c not in [x for x in self.mro(types[rname])] and c not in self.subclasses(types[rname]):
+                            continue
+                        if (qualname, n.attr) in self.hints and (c + "." + n.attr) not in self.hints[(qualname, n.attr)]:
                             continue
                         calls.append((c + "." + n.attr, {}, n.lineno))
         return {"sites": sites, "calls": calls, "needs": needs, "guarded_params": guarded}
